@@ -2,7 +2,7 @@
    line, `name field field ...`; all parsing and printing is done here, in Gallina, so the OCaml
    driver only moves characters.  Field kinds: decimal number, hex byte string, and lists
    `L:hex:hex...` (`L` = empty list, `L:` = one empty string). *)
-From Scrapli Require Import Bytes Regex PlatformTypes Generated Generic Netconf Channel Replay.
+From Scrapli Require Import Bytes Regex PlatformTypes Generated Generic Netconf Channel Replay Queue Telnet.
 Open Scope N_scope.
 
 Definition COLON : N := 58.
@@ -177,12 +177,50 @@ Definition run_chan (fs : list bytes) : list bytes :=
         emit_wlog (s_wlog s) ]
   end.
 
+(* ---- queue histories: q20 <history>  with tokens E<hex byte> D A R G, comma separated.
+   Sequential histories: each operation runs to completion (a schedule that gives the acting
+   thread enough consecutive steps). *)
+Definition parse_qop (t : bytes) : list (N + cop) :=
+  match t with
+  | 69 :: h => match of_hex h with b :: _ => [inl b] | [] => [] end
+  | [68] => [inr CDequeue] | [65] => [inr CDequeueAll] | [82] => [inr CRequeue] | [71] => [inr CGetDepth]
+  | _ => []
+  end.
+
+(* run one whole operation of thread t: first step, then on until its pc is idle again *)
+Fixpoint run_whole (fuel : nat) (t : tid) (s : st N) : st N :=
+  match fuel with
+  | O => s
+  | S f => match step s t with
+           | Some s' => if (match t with Prod => match pp N s' with PIdle => true | _ => false end
+                                    | Cons => match cp N s' with CIdle => true | _ => false end end)
+                        then s' else run_whole f t s'
+           | None => s
+           end
+  end.
+
+Definition run_q20 (fs : list bytes) : list bytes :=
+  let h := flat_map parse_qop (split_on COMMA (nthf 1 fs)) in
+  let chunks := flat_map (fun x => match x with inl b => [b] | inr _ => [] end) h in
+  let ops := flat_map (fun x => match x with inl _ => [] | inr o => [o] end) h in
+  let s := fold_left (fun s x => run_whole 8 (match x with inl _ => Prod | inr _ => Cons end) s) h (init chunks ops) in
+  [ to_hex (got N s); to_hex (q N s); print_dec (N.of_nat (nils N s));
+    join [COMMA] (map (fun d => print_dec (N.of_nat d)) (rev (depth_seen N s)));
+    emit_bool (panicked N s); print_dec (N.of_nat (depth N s)) ].
+
+(* c15 <opening> -> replies(concatenated) data *)
+Definition run_c15 (fs : list bytes) : list bytes :=
+  let s := run_telnet (of_hex (nthf 1 fs)) in
+  [to_hex (concat (t_replies s)); to_hex (t_data s)].
+
 Definition dispatch (fs : list bytes) : list bytes :=
   let name := nthf 0 fs in
   if beqb name (bs "c13") then run_c13 fs
   else if beqb name (bs "rx") then run_rx fs
   else if beqb name (bs "c02") then run_c02 fs
   else if beqb name (bs "chan") then run_chan fs
+  else if beqb name (bs "q20") then run_q20 fs
+  else if beqb name (bs "c15") then run_c15 fs
   else [bs "unknown-case"].
 
 Definition run_line (line : bytes) : bytes := unfields (dispatch (fields line)).
